@@ -227,6 +227,50 @@ def ob_slots():
     return Verdict(DISCHARGED, backend="execution on a recording receiver", sub=4)
 
 
+def ob_csr_width():
+    """Machine-integer contract of the slot map: the row-major key rows*ncol+cols and the table it is searched in are
+    64-bit (the key reaches Ndof**2 - 1; 32 bits overflow as soon as Ndof > 46340).  The extracted __Get_csr_map is run
+    on a small real mesh with `np.searchsorted` instrumented; the failing input of a narrower type is replayed by
+    evaluating the key for (row, col) = (Ndof-1, Ndof-1) at Ndof = 46341 in the observed dtype."""
+    import numpy as _np
+    from EasyFEA.FEM._utils import ElemType
+    seen = {}
+
+    class NPw:
+        def __getattr__(self, k):
+            return getattr(_np, k)
+
+        @staticmethod
+        def searchsorted(a, v, *args, **kw):
+            seen["table"], seen["key"] = _np.asarray(a).dtype, _np.asarray(v).dtype
+            return _np.searchsorted(a, v, *args, **kw)
+    g = sx.module_globals("EasyFEA.Simulations._simu", np=NPw())
+    f = extract.compile_fn(extract.get(SP, "_Simu.__Get_csr_map"), g, exact=False)
+    mesh = patches.two_element_mesh("TRI3")
+    grp = mesh.groupElem
+    me = sx.Mock("self")
+    for isMatrix in (True, False):
+        seen.clear()
+        Ndof = mesh.Nn * 2
+        inv, indices, indptr, nnz = f(me, 2, isMatrix, Ndof, (grp,))
+        for role in ("table", "key"):
+            dt = seen.get(role)
+            if dt is None:
+                raise Unsupported("np.searchsorted was not reached")
+            if not (dt.kind == "i" and dt.itemsize >= 8):
+                N = 46341
+                r = _np.array([N - 1]).astype(dt)
+                key = r * N + r
+                true = (N - 1) * N + (N - 1)
+                raise Refuted(f"__Get_csr_map(isMatrix={isMatrix}): the {role} of the slot search is {dt}, not a 64-bit integer: "
+                              f"for Ndof={N} the key of (row,col)=({N-1},{N-1}) evaluates to {int(key[0])} instead of {true}",
+                              cex=dict(Ndof=N, row=N - 1, col=N - 1, dtype=str(dt)), signature=f"csr_width:{role}",
+                              replay=dict(confirmed=bool(int(key[0]) != true), computed=int(key[0]), exact=true))
+        if _np.asarray(inv).max() >= nnz or _np.asarray(inv).min() < 0:
+            raise Refuted("slot indices out of range", signature="csr_width:range", replay=dict(confirmed=True))
+    return Verdict(DISCHARGED, backend="instrumented run of the extracted function (dtype contract)", sub=4)
+
+
 # ------------------------------------------------------------------ bounded run-time contracts on the real assembly
 
 def _make_simu(mesh, dof_n, local):
@@ -352,6 +396,8 @@ def build(tier, seed):
                           clause=f"forall Ne, e, i, j < m: {q}[e, i*m+j] == assembly[e,{'i' if which=='rows' else 'j'}]  (callee contract of Get_assembly_e)"))
     obs.append(Ob("C03.lemma.rowmajor", ob_lemma_rowmajor, (), "L", clause="(r,c)->r*ncol+c injective and order-preserving for 0<=c<ncol"))
     obs.append(Ob("C03.lemma.perm", ob_lemma_perm, (), "L", clause="dof renumbering induced by a node permutation is injective"))
+    obs.append(Ob("C03.csr_map.width", ob_csr_width, (), "P", (f"{SP}::_Simu.__Get_csr_map",),
+                  clause="row-major slot key and slot table are 64-bit integers (no wrap-around for any Ndof < 2^31)"))
     obs.append(Ob("C03.slots", ob_slots, (), "P", (f"{SP}::_Simu.Assembly",), clause="K,C,M,F assembled from tuple positions 0..3, F as a vector"))
     cases = [("patch", "TRI3", 2, False, False), ("patch", "QUAD8", 1, False, True), ("patch", "TETRA4", 3, True, True),
              ("mixed", "-", 2, False, False), ("mixed", "-", 1, True, False)]
